@@ -139,8 +139,8 @@ func stringRules(c *core.Ctx, combine, split *ssa.Function) {
 	}
 	fmtOf := func(fn *ssa.Function, pkgPath, name string, argIdx int) (string, *ssa.Call) {
 		for _, call := range callsTo(fn, pkgPath, name) {
-			if cv, ok := call.Call.Args[argIdx].(*ssa.Const); ok && cv.Value != nil && cv.Value.Kind() == constant.String {
-				return constant.StringVal(cv.Value), call
+			if str, ok := constStringOf(call.Call.Args[argIdx], 0); ok {
+				return str, call
 			}
 		}
 		return "", nil
@@ -317,4 +317,39 @@ func scanTargets(call *ssa.Call) []ssa.Value {
 		out = append(out, v)
 	}
 	return out
+}
+
+// constStringOf: a string constant, possibly handed through parameterless module functions that return one constant.
+func constStringOf(v ssa.Value, depth int) (string, bool) {
+	if depth > 4 {
+		return "", false
+	}
+	switch x := v.(type) {
+	case *ssa.Const:
+		if x.Value != nil && x.Value.Kind() == constant.String {
+			return constant.StringVal(x.Value), true
+		}
+	case *ssa.Call:
+		cal := x.Call.StaticCallee()
+		if cal == nil || len(cal.Params) != 0 || len(cal.Blocks) == 0 {
+			return "", false
+		}
+		out, have := "", false
+		for _, b := range cal.Blocks {
+			ret, ok := b.Instrs[len(b.Instrs)-1].(*ssa.Return)
+			if !ok {
+				continue
+			}
+			if len(ret.Results) != 1 {
+				return "", false
+			}
+			str, ok := constStringOf(ret.Results[0], depth+1)
+			if !ok || (have && str != out) {
+				return "", false
+			}
+			out, have = str, true
+		}
+		return out, have
+	}
+	return "", false
 }
